@@ -303,4 +303,23 @@ func evalC15Cfg(c c15Cfg) *Failure {
 	return nil
 }
 
-func init() { register("c15.config", evalC15Cfg) }
+// evalC15Shutdown: a lifecycle call made from inside a command (an application executor calling Stop or Restart)
+// returns, and leaves the state Stop promises (see c19Shutdown).
+func evalC15Shutdown(c c19Shutdown) *Failure {
+	f := evalC19Shutdown(c)
+	if f == nil {
+		return nil
+	}
+	if strings.HasSuffix(f.Key, "-hangs") {
+		return failf("c15|stop-hangs", "%s", f.Detail)
+	}
+	if strings.HasPrefix(f.Key, "harness|") {
+		return f
+	}
+	return failf("c15|"+strings.TrimPrefix(f.Key, "c19|"), "%s", f.Detail)
+}
+
+func init() {
+	register("c15.config", evalC15Cfg)
+	register("c15.shutdown", evalC15Shutdown)
+}
